@@ -33,7 +33,10 @@ func (s Sign) String() string {
 	if offsetSec >= 0 {
 		posNegSign = "+"
 	} else {
+		// the sign is printed once; hours and minutes are magnitudes
 		posNegSign = "-"
+		offsetHour = -offsetHour
+		offsetMinute = -offsetMinute
 	}
 	offset := fmt.Sprintf("%s%02d%02d", posNegSign, offsetHour, offsetMinute)
 	return fmt.Sprintf("%s <%s> %s %s", s.Name, s.Email, fmt.Sprint(unixTime), offset)
@@ -157,6 +160,9 @@ func readSign(signString string) (Sign, error) {
 		if _, err := fmt.Sscanf(offsetString, "-%02d%02d", &offsetHour, &offsetMinute); err != nil {
 			return Sign{}, fmt.Errorf("%w: %s", ErrInvalidCommitObject, err)
 		}
+		// west of UTC
+		offsetHour = -offsetHour
+		offsetMinute = -offsetMinute
 	}
 	location := time.FixedZone(" ", 3600*offsetHour+60*offsetMinute)
 	timestamp := time.Unix(unixTime, 0).In(location)
